@@ -72,10 +72,10 @@ def main():
     run.rule = ('component correspondence as C01 (receiver/sender machines vs real classes) plus pipelines of real filters in pipeline mode: a synchronized '
                 'sink stops taking frames after k inputs (sole consumer, behind a relay, one of several consumers), producer/consumer speeds 0-0.3 s, '
                 'delays 0-80 ms, each run for 60 s and 600 s of virtual time; non-trivial = the stall point was reached; distinct by hash')
-    run.partial = ['C04_credit_bound (publishes that include a silent tracked client <= its requested mark + its requests in flight, on every schedule) is not proved '
-                   'over the network fragment; the local theorems are (publish clears requested, the gate needs every tracked synchronized client, eviction only by '
-                   'CLOSE/timeout, requests only from recv()); the bound and its flatness are measured in pipeline mode',
-                   "'single digits' depends on the delay hypothesis (requests in flight per poll interval)"]
+    run.partial = ['the sender-side credit bound is proved (C04_credit_bound: publishes while a synchronized client is tracked <= requests received from it, every input sequence); '
+                   'what is NOT proved is the end-to-end figure: how many requests a stalling consumer has in flight (one prefetch per returned set, one per 100 ms wait interval, '
+                   'queued up to the PUSH high-water mark) - measured in pipeline mode, flat in the run length',
+                   'balanced publishers and push=True (metrics channel) are outside the credit theorem by design']
     run.assumptions = ['simnet network rules; virtual time']
     sys.exit(run.finish())
 
